@@ -16,7 +16,7 @@ func main() {
 	r := evid.New("C04", "exploration")
 	r.Rule("seeded network scenarios: 1 honest peer + 1-5 others drawn from {stale, lighter fork, chain with one invalid header (each rule), filter liar (omit-script / wrong-hash / unserved), silent, garbage bytes, flapping, no compact-filter service, no witness service, slow honest}, random connection order, chains of 30-430 blocks (at-tip filter sync) or 1000-2600 (checkpointed), 3 retarget presets, 0-2 header checkpoints; after initial sync the honest chain grows (announced by inv or headers) and reorganises. SAFETY at every sample (3 ms): the reported best block is a block of the generated tree on a fully valid chain. BOUNDED PROGRESS: the honest tip is reported within the deadline after each change; a miss is a violation only if the client's state was stable for the last third of the deadline, else inconclusive. END: stored chains re-validated, committed filter headers equal ground truth. distinct = peer-mix multiset x chain class x checkpoints x reorg; non-trivial = the client synced at least one block")
 	r.Assume("client knobs QueryTimeout/ConnectionRetryInterval etc. (exported configuration variables) are shortened; the simulated peers implement the protocol subset of DESIGN appendix B")
-	n := r.Pick(20, 400)
+	n := r.Pick(20, 1200)
 	l2.Main(r, n, 420*time.Second, 8, scenario)
 }
 
